@@ -427,3 +427,53 @@ pub fn arb_zone(cfg: ZoneCfg) -> SBoxedStrategy<MZone> {
         })
         .sboxed()
 }
+
+/// zic-style zones: the table consists of the trailing rule's own transition instants for some years (optionally preceded by an
+/// LMT-like segment), cut after an arbitrary event, so that the last table transition coincides exactly with a rule-generated instant.
+pub fn arb_aligned_zone() -> SBoxedStrategy<MZone> {
+    (arb_rule(), 1800i64..2200, 1usize..9, any::<bool>(), prop_oneof![3 => Just(vec![]), 1 => arb_leap_table(6), 1 => Just(crate::oleap::real_table())], arb_ltt_wide())
+        .prop_filter_map("rule not usable for an aligned table", |(cr, y0, n_events, lmt, leaps, first)| {
+            if !cr.class.interleaves() {
+                return None;
+            }
+            let r = &cr.rule;
+            let mut ev: Vec<(i64, bool)> = vec![];
+            for y in y0..y0 + 6 {
+                ev.push((r.s(y), true));
+                ev.push((r.e(y), false));
+            }
+            ev.sort();
+            // drop coincident instants (zero-length periods): they are not transitions
+            let mut clean: Vec<(i64, bool)> = vec![];
+            let mut i = 0;
+            while i < ev.len() {
+                if i + 1 < ev.len() && ev[i].0 == ev[i + 1].0 {
+                    i += 2;
+                    continue;
+                }
+                clean.push(ev[i]);
+                i += 1;
+            }
+            // keep only genuine changes according to the model
+            let clean: Vec<(i64, bool)> = clean.into_iter().filter(|&(t, to_dst)| orule::is_dst(r, cr.class, t) == to_dst && orule::is_dst(r, cr.class, t - 1) != to_dst).collect();
+            if clean.len() < n_events {
+                return None;
+            }
+            let mut types = vec![first, r.std.clone(), r.dst.clone()];
+            if !lmt {
+                types.remove(0);
+                types.insert(0, if orule::is_dst(r, cr.class, clean[0].0 - 1) { r.dst.clone() } else { r.std.clone() });
+            }
+            let mut trans = vec![];
+            for &(t, to_dst) in clean.iter().take(n_events) {
+                let lt = crate::oleap::f(&leaps, t);
+                if lt > i64::MAX as i128 || lt < i64::MIN as i128 {
+                    return None;
+                }
+                // a transition must not sit on a count without UTC pre-image; F(t) always has one
+                trans.push((lt as i64, if to_dst { 2 } else { 1 }));
+            }
+            Some(MZone { trans, types, leaps, trailer: MTrailer::Alt(r.clone()) })
+        })
+        .sboxed()
+}
